@@ -33,11 +33,11 @@ pub trait ToStr {
         ensures r@ == self.str_spec();
 }
 
-impl ToStr for u64 {
-    open spec fn str_spec(&self) -> Seq<char> { uint_str(*self as int) }
-    #[verifier::external_body]
-    fn to_string(&self) -> (r: String) { unimplemented!() }
-}
+// std's blanket `impl<T: Display> ToString for T`: vstd gives `to_string_from_display_ensures`; u64 prints its decimal digits
+#[verifier::external_body]
+pub broadcast proof fn axiom_display_u64(v: u64, s: String)
+    ensures #[trigger] vstd::string::to_string_from_display_ensures::<u64>(&v, s) ==> s@ == uint_str(v as int),
+{}
 impl ToStr for &str {
     open spec fn str_spec(&self) -> Seq<char> { (*self)@ }
     #[verifier::external_body]
@@ -445,7 +445,7 @@ pub broadcast proof fn lemma_into_u128_from_u8_ok(v: u8) ensures #[trigger] into
 pub broadcast proof fn lemma_into_u128_from_u8(v: u8) ensures #[trigger] into_u128::<u8>(v) == Uint128(v as u128), {}
 
 pub broadcast group group_base {
-    axiom_uint_str_inj, axiom_str_uint_roundtrip,
+    axiom_uint_str_inj, axiom_str_uint_roundtrip, axiom_display_u64,
     axiom_into_u128_refl_ok, axiom_into_u128_refl,
     lemma_into_u128_from_u128_ok, lemma_into_u128_from_u128,
     lemma_into_u128_from_u64_ok, lemma_into_u128_from_u64,
